@@ -386,3 +386,75 @@ def apply_agp_to_fasta(seqs: dict, scaffolds, width=60) -> bytes:
                 parts.append(revcomp(piece) if r[4] == -1 else piece)
         out.append(wrap(b"".join(parts), width))
     return b"".join(out)
+
+
+# --------------------------------------------------------------------------
+# C06: AGP validator
+
+
+def agp_validate(text, lengths=None):
+    """
+    Returns None or a message. lengths: optional {object name: expected total length}.
+    Objects are runs of consecutive lines with equal column 1.
+    """
+    objects = []
+    for ln, line in enumerate(text.split("\n"), 1):
+        if line == "" or line.startswith("#"):
+            continue
+        f = line.split("\t")
+        if len(f) < 9:
+            return f"line {ln}: {len(f)} columns"
+        if not objects or objects[-1][0] != f[0]:
+            objects.append((f[0], []))
+        objects[-1][1].append((ln, f))
+    names = [o[0] for o in objects]
+    seen = {}
+    for name, rows in objects:
+        if name in seen:
+            return f"object {name!r} appears in two separate blocks"
+        seen[name] = True
+        pos = 0
+        for k, (ln, f) in enumerate(rows, 1):
+            try:
+                beg, end, part = int(f[1]), int(f[2]), int(f[3])
+            except ValueError:
+                return f"line {ln}: non-numeric object coordinates {f[1:4]}"
+            if beg != pos + 1:
+                return f"line {ln}: object {name!r} part {k} begins at {beg}, previous part ended at {pos} (hole or overlap)"
+            if part != k:
+                return f"line {ln}: part number {part}, expected {k}"
+            if f[4] == "W":
+                try:
+                    cb, ce = int(f[6]), int(f[7])
+                except ValueError:
+                    return f"line {ln}: non-numeric component coordinates"
+                if ce < cb:
+                    return f"line {ln}: component end {ce} < begin {cb}"
+                if end - beg != ce - cb:
+                    return f"line {ln}: object span {beg}-{end} ({end - beg + 1}) != component span {cb}-{ce} ({ce - cb + 1})"
+                if f[8] not in ("+", "-", "?"):
+                    return f"line {ln}: orientation {f[8]!r}"
+                if f[5] == "":
+                    return f"line {ln}: empty component id"
+            elif f[4] == "U":
+                try:
+                    glen = int(f[5])
+                except ValueError:
+                    return f"line {ln}: non-numeric gap length {f[5]!r}"
+                if end - beg + 1 != glen:
+                    return f"line {ln}: gap span {beg}-{end} ({end - beg + 1}) != stated length {glen}"
+                if f[6] == "":
+                    return f"line {ln}: empty gap type"
+                if f[7] != "yes":
+                    return f"line {ln}: linkage {f[7]!r}, expected 'yes'"
+            else:
+                return f"line {ln}: component type {f[4]!r}, expected W or U"
+            pos = end
+        if lengths is not None:
+            if name not in lengths:
+                return f"object {name!r} not expected (expected {sorted(lengths)[:5]})"
+            if lengths[name] != pos:
+                return f"object {name!r}: last object end {pos} != scaffold length {lengths[name]}"
+    if lengths is not None and set(lengths) != set(names):
+        return f"objects {sorted(set(lengths) - set(names))[:5]} missing from the AGP"
+    return None
